@@ -167,3 +167,20 @@ def all_package_modules(pkg: str = "markdown_it") -> list[str]:
                     rel = rel[: -len(".__init__")]
                 out.append(rel)
     return out
+
+
+def set_literal_codes(mi, name: str) -> frozenset:
+    """code points of the one-character strings in the module-level set literal `name`"""
+    import ast as _ast
+
+    for node in mi.tree.body:
+        tgt = None
+        if isinstance(node, _ast.Assign) and len(node.targets) == 1 and isinstance(node.targets[0], _ast.Name):
+            tgt, val = node.targets[0].id, node.value
+        elif isinstance(node, _ast.AnnAssign) and isinstance(node.target, _ast.Name) and node.value is not None:
+            tgt, val = node.target.id, node.value
+        if tgt == name:
+            if isinstance(val, _ast.Set) and all(isinstance(e, _ast.Constant) and isinstance(e.value, str) and len(e.value) == 1 for e in val.elts):
+                return frozenset(ord(e.value) for e in val.elts)
+            raise SourceError(f"{name} in {mi.name} is not a set literal of one-character strings")
+    raise SourceError(f"no module-level {name} in {mi.name}")
